@@ -34,10 +34,13 @@ var Shapes = map[string]ShapeInfo{
 	"c2":   {"c2", 2, 2, 2, []bool{true, true}},
 	"c2i":  {"c2i", 1, 2, 2, []bool{true}},
 	"c3":   {"c3", 2, 2, 3, []bool{true, true}},
+	// c3r re-commits an internal variable that an earlier commitment already holds (the builder
+	// must commit to that commitment instead) after another commitment wire precedes it
+	"c3r": {"c3r", 2, 2, 3, []bool{true, true}},
 }
 
 func ShapeNames() []string {
-	return []string{"p1", "p2u", "c1s", "c1p", "c1po", "c2", "c2i", "c3"}
+	return []string{"p1", "p2u", "c1s", "c1p", "c1po", "c2", "c2i", "c3", "c3r"}
 }
 
 func NewShape(kind string) *ShapeCircuit {
@@ -132,6 +135,17 @@ func (c *ShapeCircuit) Define(api frontend.API) error {
 		}
 		t := api.Mul(c1, c2)
 		if _, err := commit(t, c.X[0]); err != nil {
+			return err
+		}
+	case "c3r":
+		if _, err := commit(c.Y[0]); err != nil {
+			return err
+		}
+		t := api.Mul(c.Y[0], c.Y[1])
+		if _, err := commit(t); err != nil {
+			return err
+		}
+		if _, err := commit(t, c.X[1]); err != nil {
 			return err
 		}
 	default:
